@@ -305,6 +305,18 @@ size_t make_segmentation(size_t n, size_t start, size_t end, size_t epsilon, Fin
     }
     if (end >= start + 2 && in(end - 1) != in(end - 2))
         add_point(in(end - 1), end - 1);
+    else if (end >= start + 2 && end < n) {
+        // This chunk ends with a run of duplicate keys and more data follows: make here the adjustment that the loop above
+        // makes at the end of a run, because the next chunk starts after the run and cannot make it.
+        if constexpr (std::is_floating_point_v<K>) {
+            K next;
+            if ((next = std::nextafter(in(end - 1), std::numeric_limits<K>::infinity())) < in(end))
+                add_point(next, end - 1);
+        } else {
+            if (in(end - 1) + 1 < in(end))
+                add_point(in(end - 1) + 1, end - 1);
+        }
+    }
 
     if (end == n) {
         // Ensure values greater than the last one are mapped to n
@@ -341,6 +353,9 @@ size_t make_segmentation_par(size_t n, size_t epsilon, Fin in, Fout out) {
     for (auto i = 0; i < parallelism; ++i) {
         auto first = i * chunk_size;
         auto last = i == parallelism - 1 ? n : first + chunk_size;
+        // A run of duplicate keys that continues past the end of this chunk belongs to this chunk (the next one skips it)
+        for (; last < n && in(last) == in(last - 1); ++last)
+            continue;
         if (first > 0) {
             for (; first < last; ++first)
                 if (in(first) != in(first - 1))
